@@ -95,10 +95,35 @@ func (r *validationResponseHandler) HandleValidationResponse(
 			ccResp = ParseCCResponseDirectives(resp.Header)
 			ccRespOnce = true
 		}
-		if r.siep.CanStaleOnError(ctx.Freshness, ccResp) {
+		// RFC 5861 §4: the stale-if-error window comes from the stored response or
+		// from the request (not from the error reply), and it does not lift
+		// must-revalidate or no-cache.
+		storedCC := ParseCCResponseDirectives(ctx.Stored.Data.Header)
+		noCacheFields, storedNoCache := storedCC.NoCache()
+		noCacheFieldsSeq, noCacheQualified := noCacheFields.Value()
+		freshness := ctx.Freshness
+		if maxAge, ok := ctx.CCReq.MaxAge(); ok && maxAge == 0 {
+			// The freshness of a "max-age=0" request carries no age; compute it.
+			f := *freshness
+			f.Age = calculateCurrentAge(
+				r.clock,
+				ctx.Stored.Data.Header,
+				ctx.Stored.DateHeader(),
+				ctx.Stored.RequestedAt,
+				ctx.Stored.ReceivedAt,
+			)
+			freshness = &f
+		}
+		if !storedCC.MustRevalidate() && !(storedNoCache && !noCacheQualified) && !ctx.CCReq.NoCache() &&
+			r.siep.CanStaleOnError(freshness, storedCC, ctx.CCReq) {
 			// RFC 9111 §4.2.4 Serving Stale Responses
 			// RFC 9111 §4.3.3 Handling Validation Responses (5xx errors)
-			SetAgeHeader(ctx.Stored.Data, r.clock, ctx.Freshness.Age)
+			if noCacheQualified {
+				for field := range noCacheFieldsSeq {
+					ctx.Stored.Data.Header.Del(field)
+				}
+			}
+			SetAgeHeader(ctx.Stored.Data, r.clock, freshness.Age)
 			CacheStatusStale.ApplyTo(ctx.Stored.Data.Header)
 			r.l.LogCacheStaleIfError(req, ctx.URLKey, ctx.ToMisc(ccResp))
 			return ctx.Stored.Data, nil
